@@ -240,7 +240,8 @@ func runC17(r *Rand, tier string, o *Out) {
 	for s := 0; s < seqs; s++ {
 		o.Do("P", "ep.reset", false)
 		o.Do("P", fmt.Sprintf("ep.make %d %d 0 64", sentinelMod, sentinelRes), false) // the sentinel: slot 0, uid 0
-		type live struct{ slot, dropOn int }
+		type dropH struct{ mod, res, id uint32 }
+		var drops []dropH // handlers that remove themselves on a message id
 		var slots []int
 		var removed []int
 		closed := false
@@ -274,6 +275,9 @@ func runC17(r *Rand, tier string, o *Out) {
 				if sl, err := strconv.Atoi(out); err == nil {
 					slots = append(slots, sl)
 				}
+				if drop != 0 {
+					drops = append(drops, dropH{mod, res, drop})
+				}
 				o.Count("op:make")
 			case k < 34 && len(slots) > 0:
 				sl := slots[r.Intn(len(slots))]
@@ -289,10 +293,19 @@ func runC17(r *Rand, tier string, o *Out) {
 			case k < 80 && !closed:
 				msgID++
 				id := msgID
+				action := uint32(r.Intn(7))
 				if r.Chance(30) {
 					id = 200 + uint32(r.Intn(6))
 				}
-				sendMsg(uint32(r.Intn(7)), id, r.Chance(40))
+				if len(drops) > 0 && r.Chance(35) {
+					// the message a self-removing handler waits for, selected by that handler — and by whichever
+					// other handlers select the same action
+					d := drops[r.Intn(len(drops))]
+					id = d.id
+					action = d.res + d.mod*uint32(r.Intn(3))
+					o.Count("op:message-for-a-one-shot-handler")
+				}
+				sendMsg(action, id, r.Chance(40))
 				o.Count("op:message")
 			case k < 90 && len(slots) > 0:
 				o.Do("P", fmt.Sprintf("ep.drain %d %d", slots[r.Intn(len(slots))], 1+r.Intn(2)), true)
